@@ -2,12 +2,14 @@
 package simcheck
 
 import (
+	"bytes"
 	"encoding/json"
 	"flag"
 	"fmt"
 	"os"
 	"runtime"
 	"strconv"
+	"strings"
 	"testing"
 	"time"
 	"verif/sim"
@@ -80,6 +82,33 @@ func TestSim(t *testing.T) {
 			os.Exit(0)
 		}
 		fmt.Printf("replaying %s: property=%s seed=%d class=%s key=%s choices=%d\n", *fFile, v.Property, v.Seed, v.Class, v.Key, v.NChoices)
+		if (v.Class == "crash" || v.Class == "hang") && os.Getenv("SIM_REPLAY_INNER") == "" {
+			// the run kills or wedges its process: execute it in a child and observe that
+			cmd := childCmd("-sim.cmd=replay", "-sim.file="+*fFile)
+			cmd.Env = append(cmd.Env, "SIM_REPLAY_INNER=1")
+			var buf bytes.Buffer
+			cmd.Stdout, cmd.Stderr = &buf, &buf
+			cmd.Start()
+			limit := 100 * time.Second
+			if v.Tier == "thorough" {
+				limit = 5 * time.Minute
+			}
+			hung := false
+			timer := time.AfterFunc(limit, func() { hung = true; cmd.Process.Kill() })
+			err := cmd.Wait()
+			timer.Stop()
+			out := buf.String()
+			switch {
+			case v.Class == "hang" && hung:
+				fmt.Printf("the run did not finish within %v\nREPRODUCED\nVIOLATION property=%s replay=%s\n", limit, v.Property, *fFile)
+				os.Exit(1)
+			case v.Class == "crash" && err != nil && !hung && !strings.Contains(out, "VIOLATION property=") && !strings.Contains(out, "NOT-REPRODUCED"):
+				fmt.Printf("the process running it died: %s\n%s\nREPRODUCED\nVIOLATION property=%s replay=%s\n", crashHeadline(out), tail(out, 3000), v.Property, *fFile)
+				os.Exit(1)
+			}
+			fmt.Printf("%s\nNOT-REPRODUCED: the run neither crashed nor hung this time\n", tail(out, 2000))
+			os.Exit(0)
+		}
 		o, fault, tries := replayMatching(t, p, &v, 200)
 		fmt.Printf("attempts until the Go runtime repeated the recorded select picks: %d\n", tries)
 		if fault != "" {
@@ -91,7 +120,7 @@ func TestSim(t *testing.T) {
 			os.Exit(0)
 		}
 		fmt.Printf("violation class=%s key=%s event_log_hash=%d\n%s\n", o.Class, o.Key, o.EventHash, o.Detail)
-		if (v.Class == "race" && o.Class == "race" && o.Key == v.Key) || (o.Class == v.Class && o.Key == v.Key && (o.EventHash == v.EventHash || v.EventHash == 0)) {
+		if (v.Class == "race" && o.Class == "race" && sameRace(o.Key, v.Key)) || (o.Class == v.Class && o.Key == v.Key && (o.EventHash == v.EventHash || v.EventHash == 0)) {
 			fmt.Println("REPRODUCED")
 		} else {
 			fmt.Println("DIFFERENT violation than recorded")
